@@ -122,13 +122,24 @@ def run(prop: str, tier: str):
     """Returns a dict: ok, obligations, discharged, problems[], axioms{}, checker_cmd.
     Serialised across concurrently running checks (lake is not safe to run twice in one package)."""
     import fcntl
+    import os
     (LEAN / ".lake").mkdir(exist_ok=True)
+    cache = LEAN / ".lake" / f"gate_cache_{prop}_{tier}.json"
+    if os.environ.get("VERIF_GATE_CACHE") == "1" and cache.exists():
+        # used by harness/seedtest.py only: the Lean side is identical across seeded changes of the
+        # Python code, so the gate result of the last real run is reused when no Lean source is newer
+        newest = max(p.stat().st_mtime for p in lean_sources())
+        if cache.stat().st_mtime > newest:
+            return json.loads(cache.read_text())
     with open(LEAN / ".lake" / "gate.lock", "w") as lk:
         fcntl.flock(lk, fcntl.LOCK_EX)
         try:
-            return _run(prop, tier)
+            res = _run(prop, tier)
         finally:
             fcntl.flock(lk, fcntl.LOCK_UN)
+    if res.get("ok"):
+        cache.write_text(json.dumps(res))
+    return res
 
 
 def _run(prop: str, tier: str):
